@@ -165,6 +165,23 @@ const TEXT_POOL: &[char] = &[
     '\r', '\n', '𠀋', '😀', '\u{200d}', '👨', '👩', '🇯', '🇵', '\u{3099}', ' ', '"', '\'',
 ];
 
+/// The same text with some characters in the other width (ASCII <-> full-width forms).
+fn flip_width(text: &str, salt: usize) -> String {
+    text.chars()
+        .enumerate()
+        .map(|(k, c)| {
+            if (k + salt) % 3 == 2 {
+                return c;
+            }
+            match c as u32 {
+                0x21..=0x7e => char::from_u32(c as u32 + 0xfee0).unwrap(),
+                0xff01..=0xff5e => char::from_u32(c as u32 - 0xfee0).unwrap(),
+                _ => c,
+            }
+        })
+        .collect()
+}
+
 fn stream_strategy(with_nul: bool) -> impl Strategy<Value = StreamCase> {
     (
         gen::model_case(ModelCfg { allow_255: false, max_texts: 2, ..ModelCfg::BOUNDARY }),
@@ -192,6 +209,26 @@ fn stream_strategy(with_nul: bool) -> impl Strategy<Value = StreamCase> {
                 })
                 .collect();
             texts.extend(mc.texts.iter().cloned());
+            // one tokenizer analyses the texts in a row: follow some texts by relatives of
+            // themselves (the same text again, the same text in the other character width - equal
+            // after normalisation -, its normalised form, a prefix)
+            let mut k = 0;
+            while k < texts.len() && texts.len() < 9 {
+                let t = texts[k].clone();
+                let sel = ws.first().copied().unwrap_or(0) as usize + k;
+                let rel: Option<String> = match sel % 6 {
+                    0 => Some(t.clone()),
+                    1 => Some(flip_width(&t, sel)),
+                    2 => Some(norm(&t)),
+                    3 => Some(t.chars().take(t.chars().count() / 2).collect()),
+                    _ => None,
+                };
+                if let Some(r) = rel {
+                    texts.insert(k + 1, r);
+                    k += 1;
+                }
+                k += 1;
+            }
             StreamCase {
                 spec: mc.spec,
                 texts,
